@@ -41,6 +41,9 @@ func IsTruthy(val any) bool {
 			return rv.Uint() != 0
 		case reflect.Float32, reflect.Float64:
 			return rv.Float() != 0
+		case reflect.Pointer:
+			// a nil pointer of any type is nil
+			return !rv.IsNil()
 		}
 		return true
 	}
